@@ -831,6 +831,7 @@ func c03Verify(c *Ctx) {
 }
 
 var c03Canaries = []Canary{
+	{Name: "r5-case-folded-ref-names", ExpectKey: "C03.R6", Edits: []Edit{{File: "lfs/gitscanner_remotes.go", Find: "\t\tif actualRemoteRefsSet.Contains(cachedRef.Name) {", Repl: "\t\tif actualRemoteRefsSet.Contains(cachedRef.Name + \"\") || actualRemoteRefsSet.Contains(cachedRef.Sha) {"}}},
 	{Name: "r4-rel-drops-lookup-error", ExpectKey: "C03.R12", Edits: []Edit{{File: "tq/transfer.go", Find: "\ta, err := t.Actions.Get(name)\n\tif a != nil || err != nil {", Repl: "\ta, err := t.Actions.Get(name)\n\tif a != nil {"}}},
 	{Name: "skip-small-files", ExpectKey: "C03.R1#prepareUpload:skip-condition", Edits: []Edit{{File: "commands/uploader.go", Find: "		if uniqOids.Contains(p.Oid) || c.HasUploaded(p.Oid) || p.Size == 0 {", Repl: "		if uniqOids.Contains(p.Oid) || c.HasUploaded(p.Oid) || p.Size == 0 || len(p.Name) > 4000 {"}}},
 	{Name: "queue-skipped-on-clean-pointer-error", ExpectKey: "C03.R1#UploadPointers", Edits: []Edit{{File: "commands/uploader.go", Find: "		if err != nil && !errors.IsCleanPointerError(err) {\n			ExitWithError(err)\n		}\n\n		q.Add(", Repl: "		if err != nil && !errors.IsCleanPointerError(err) {\n			ExitWithError(err)\n		} else if err != nil {\n			continue\n		}\n\n		q.Add("}}},
